@@ -42,6 +42,16 @@ fn gen_value(rng: &mut Rng, kind: u64, t: u64, r: u64) -> ReplicatedValue {
             v.hash_set(format!("f{}", (t + r) % 3), SDS::from_str(&payload), &mut c);
             v
         }
+        5 => {
+            // hash whose field was written and then deleted (field tombstone), plus possibly another live field
+            let mut v = ReplicatedValue::with_crdt(CrdtValue::new_hash(), ReplicaId(r));
+            let mut c = lc(t.saturating_sub(2), r);
+            v.hash_set(format!("f{}", (t + r) % 3), SDS::from_str(&payload), &mut c);
+            v.hash_delete(&format!("f{}", (t + r) % 3), &mut c);
+            if t % 2 == 0 { let mut c2 = lc(t - 1, r); v.hash_set("g".to_string(), SDS::from_str("w"), &mut c2); }
+            v.timestamp = ts;
+            v
+        }
         3 => { let mut g = GCounter::new(); g.increment_by(ReplicaId(r), t); let mut v = ReplicatedValue::with_crdt(CrdtValue::GCounter(g), ReplicaId(r)); v.timestamp = ts; v }
         _ => { let mut p = PNCounter::new(); p.increment_by(ReplicaId(r), t); p.decrement_by(ReplicaId(r), t / 2); let mut v = ReplicatedValue::with_crdt(CrdtValue::PNCounter(p), ReplicaId(r)); v.timestamp = ts; v }
     };
@@ -89,7 +99,7 @@ fn check_order() -> Option<Found> {
 fn check_aci(rng: &mut Rng, cross_kind: bool, iters: u64) -> Option<Found> {
     // structured family first: all kind triples over three distinct stamps, then random
     let mut cases: Vec<(ReplicatedValue, ReplicatedValue, ReplicatedValue)> = Vec::new();
-    let kinds: Vec<u64> = vec![0, 1, 2, 3, 4];
+    let kinds: Vec<u64> = vec![0, 1, 2, 5, 3, 4];
     for &ka in &kinds { for &kb in &kinds { for &kc in &kinds {
         if !cross_kind && !(same_kind(ka, kb) && same_kind(kb, kc)) { continue; }
         for perm in [[1u64, 2, 3], [3, 2, 1], [2, 3, 1], [2, 2, 2], [1, 1, 2]] {
@@ -97,7 +107,7 @@ fn check_aci(rng: &mut Rng, cross_kind: bool, iters: u64) -> Option<Found> {
         }
     } } }
     for _ in 0..iters {
-        let ka = rng.below(5); let kb = if cross_kind { rng.below(5) } else { ka }; let kc = if cross_kind { rng.below(5) } else { ka };
+        let ka = rng.below(6); let kb = if cross_kind { rng.below(6) } else if ka == 2 || ka == 5 { *rng.pick(&[2u64, 5]) } else { ka }; let kc = if cross_kind { rng.below(6) } else if ka == 2 || ka == 5 { *rng.pick(&[2u64, 5]) } else { ka };
         let (ta, tb, tc) = (rng.below(6) + 1, rng.below(6) + 1, rng.below(6) + 1);
         cases.push((gen_value(rng, ka, ta, 1), gen_value(rng, kb, tb, 2), gen_value(rng, kc, tc, 3)));
     }
@@ -118,7 +128,7 @@ fn check_aci(rng: &mut Rng, cross_kind: bool, iters: u64) -> Option<Found> {
     None
 }
 
-fn same_kind(a: u64, b: u64) -> bool { let k = |x: u64| if x <= 1 { 0 } else { x }; k(a) == k(b) }
+fn same_kind(a: u64, b: u64) -> bool { let k = |x: u64| if x <= 1 { 0 } else if x == 5 { 2 } else { x }; k(a) == k(b) }
 
 fn check_shard(rng: &mut Rng, iters: u64) -> Option<Found> {
     for it in 0..iters {
